@@ -134,7 +134,6 @@ func runC05(t *testing.T, tape *sim.Tape, tier string) *Outcome {
 		}
 		w.S.Choose(acts, "ev")
 	}
-	o.SimTime = time.Since(simStart)
 
 	// oracle
 	for j, c := range w.Conns {
